@@ -23,7 +23,9 @@ import time
 VERIF = os.path.dirname(os.path.dirname(os.path.dirname(os.path.abspath(__file__))))
 REPO = os.environ.get('VERIF_REPO', '/repo')
 COQ = os.path.join(VERIF, 'coq')
-EVID = os.path.join(VERIF, 'evidence')
+# evidence of runs against another checkout (VERIF_REPO, used to try seeded changes) is kept apart:
+# the committed evidence always describes /repo itself
+EVID = os.path.join(VERIF, 'evidence') if REPO == '/repo' else os.path.join(VERIF, '.work', 'evidence-alt')
 REPLAYS = os.path.join(EVID, 'replays')
 WORKROOT = os.path.join(VERIF, '.work')
 NPROC = int(os.environ.get('VERIF_JOBS', '16'))
